@@ -137,6 +137,26 @@ func c03HeadChange(c *Case, rng *Rng) {
 		}
 		return w.bad != "" || strings.HasPrefix(w.qs[1].at, "run:") || w.qs[1].at == "exit"
 	}
+	// what the queue held at each look of waitForTask (nobody but this harness changes the queue, and it
+	// does so only while the worker is parked): for the op `waithead` (Model/WaitHead)
+	var looks []string
+	firstItems := "-"
+	plain := advance
+	advance = func() bool {
+		at, items := w.qs[1].at, itemsOf(w.qs[1].q)
+		done := plain()
+		switch at {
+		case "afterCheck":
+			firstItems, looks = items, nil
+		case "tick":
+			e := 0
+			if strings.HasPrefix(w.qs[1].at, "run:") {
+				e = 1
+			}
+			looks = append(looks, fmt.Sprintf("%d:%s", e, items))
+		}
+		return done
+	}
 	entered := false
 	if where >= 1 {
 		entered = advance() // afterCheck
@@ -190,6 +210,14 @@ func c03HeadChange(c *Case, rng *Rng) {
 		c.Op("harness-timeout", "hang")
 		return
 	}
+	if entered && strings.HasPrefix(w.qs[1].at, "run:") {
+		sleep := 1
+		if res.status == "fail" && res.backMs == 0 && res.delayMs == 0 {
+			sleep = 0
+		}
+		c.Op(fmt.Sprintf("waithead sleep=%d first=%s looks=%s", sleep, firstItems, joinStrsSep(looks, ";")), strings.TrimPrefix(w.qs[1].at, "run:"))
+	}
+	c.Desc = fmt.Sprintf("head change on the retry path: task 1 of %d returns %s (back-off %d ms, delay %d ms), queue changed while the worker stood at position %d", k, res.status, res.backMs, res.delayMs, where)
 	// everything left is executed, successfully
 	w.drain(func(int, string) wResult { return wResult{status: "success"} }, 200)
 	if w.bad != "" {
@@ -294,6 +322,7 @@ func c03LockWindows(c *Case, rng *Rng) {
 		return delivery{n, n*1000 + nextID[n]}
 	}
 	why := ""
+	lastWindow, lastEvent := "", ""
 	windows := map[string]int{}
 	events := 0
 	steps := rng.Range(40, 120)
@@ -312,6 +341,7 @@ func c03LockWindows(c *Case, rng *Rng) {
 			break
 		}
 		windows[name]++
+		lastWindow = name
 		if rng.Chance(30) {
 			// an event arrives while queue 1's worker stands in front of its queue lock
 			var ts []delivery
@@ -323,6 +353,7 @@ func c03LockWindows(c *Case, rng *Rng) {
 				}
 			}
 			events++
+			lastEvent = fmt.Sprintf("%v (queue 1 held %d tasks)", ts, f.q(1).Length())
 			why = event(ts)
 			// the other queues do their work while queue 1 is held up
 			if why == "" {
@@ -417,6 +448,8 @@ func c03LockWindows(c *Case, rng *Rng) {
 	c.Desc = fmt.Sprintf("lock windows of queue 1 (%s), %d events while its worker stood before the queue lock, %d queues", strings.Join(wl, " "), events, nq)
 	if why == "" {
 		why = "none"
+	} else {
+		c.Desc += fmt.Sprintf("; stuck (%s) with the worker of queue 1 parked at %s and the event {queue task} %s", why, lastWindow, lastEvent)
 	}
 	c.Oracle(fmt.Sprintf("opflag what=every-event-is-placed-and-the-other-queues-run-while-the-worker-of-queue-1-stands-before-its-queue-lock:stuck=%s ok=%v", why, why == "none"))
 	c.Oracle(fmt.Sprintf("opflag what=all-queues-drained ok=%v", drained || why != "none"))
